@@ -56,6 +56,16 @@ pub fn all_layouts() -> Vec<&'static str> {
 
 const SIZES: [usize; 9] = [1, 2, 3, 17, 64, 255, 300, 1400, 1900];
 
+/// A legal choice other clients make and the bundled one never does: the first chunk of a Shadowsocks request carries the
+/// target address and nothing else (SIP004 clients that connect before the application has written; SIP022 clients then
+/// add the mandatory padding).  The connect item is owed as soon as that chunk has arrived.  Every third reference-made
+/// Shadowsocks request stream starts that way.
+fn address_only_first(writes: &mut [usize], layout: &str, producer: &str, turn: usize) {
+    if producer == "ref" && matches!(layout, "ss-legacy-req" | "ss2022-req" | "ss2022-req-eih") && turn % 3 == 0 && !writes.is_empty() {
+        writes[0] = 0;
+    }
+}
+
 pub fn pick_writes(n: usize, rng: &mut SmallRng) -> Vec<usize> {
     (0..n).map(|_| SIZES[rng.random_range(0..SIZES.len())]).collect()
 }
@@ -183,7 +193,8 @@ pub fn replay(args: &[String]) -> anyhow::Result<()> {
         // every scenario on one protocol of the family (rotating), both producers over time
         let proto = &protos[idx % protos.len()];
         let producer = if (idx / protos.len()) % 2 == 0 { "real" } else { "ref" };
-        let writes = pick_writes(nwrites, &mut rng);
+        let mut writes = pick_writes(nwrites, &mut rng);
+        address_only_first(&mut writes, layout, producer, idx / 7);
         let mut fx = match stream::fixture(proto, &writes, producer, idx, &mut rng) {
             Ok(f) => f,
             Err(e) => {
@@ -278,10 +289,11 @@ pub fn record(args: &[String]) -> anyhow::Result<()> {
         let adapter = if (i / 3) % 2 == 0 { "framed" } else { "ws" };
         let producer = if (i / 5) % 2 == 0 { "real" } else { "ref" };
         i += 1;
-        let writes = match mode.as_str() {
+        let mut writes = match mode.as_str() {
             "tiny" => (0..nwrites).map(|_| rng.random_range(1..4usize)).collect::<Vec<_>>(),
             _ => pick_writes(nwrites, &mut rng),
         };
+        address_only_first(&mut writes, layout, producer, i / 11);
         let mut fx = match stream::fixture(proto, &writes, producer, i, &mut rng) {
             Ok(f) => f,
             Err(e) => {
